@@ -32,6 +32,7 @@ type c6Chain struct {
 	level    zerolog.Level
 	ops      []fop
 	fin      int
+	entry    int // 0: an Event built field by field; 1..: Print, Printf, Println, Write, Err(...).Msg and the package-level helpers
 	exp      [2][]byte // expected bytes per sink (nil = no write)
 	expLevel zerolog.Level
 	got      [2]int
@@ -246,6 +247,13 @@ func (r *c6Run) buildDest() io.Writer {
 		sw1 := zerolog.SyncWriter(a)
 		r.extraDest = zerolog.SyncWriter(sw1)
 		return sw1
+	case 11:
+		// ConsoleWriter calls Write (not WriteLevel) on its output: the plain-Write paths
+		// of the wrappers
+		r.synced = true
+		return zerolog.ConsoleWriter{Out: zerolog.SyncWriter(a), NoColor: true, TimeFormat: time.RFC3339}
+	case 12:
+		return zerolog.ConsoleWriter{Out: zerolog.MultiLevelWriter(a, &zerolog.FilteredLevelWriter{Writer: b, Level: zerolog.DebugLevel}), NoColor: true, TimeFormat: time.RFC3339}
 	case 9:
 		// a TriggerLevelWriter that holds nothing back (every level is above
 		// ConditionalLevel): one more mutex-protected wrapper on the path
@@ -311,9 +319,84 @@ func (r *c6Run) finalize(c *c6Chain, e *zerolog.Event, seq int) {
 }
 
 func (r *c6Run) runChain(c *c6Chain, seq int) {
+	if c.entry != 0 {
+		r.runEntry(c, seq)
+		return
+	}
 	e := r.start(c)
 	e = applyEvent(e.Str("id", c.id), c.ops)
 	r.finalize(c, e, seq)
+}
+
+// runEntry logs through the convenience entry points, which build and send the
+// event themselves.
+func (r *c6Run) runEntry(c *c6Chain, seq int) {
+	c.fseq = seq
+	r.cur[zsim.CurID()] = c
+	defer delete(r.cur, zsim.CurID())
+	global := c.logger == len(r.loggers)
+	var lg zerolog.Logger
+	if !global {
+		lg = r.loggers[c.logger]
+	}
+	msg := "e:" + c.id
+	switch c.entry {
+	case 1:
+		if global {
+			zlog.Print(msg, 1)
+		} else {
+			lg.Print(msg, 1)
+		}
+	case 2:
+		if global {
+			zlog.Printf("%s/%d", msg, c.k)
+		} else {
+			lg.Printf("%s/%d", msg, c.k)
+		}
+	case 3:
+		if global {
+			zlog.Print(msg)
+		} else {
+			lg.Println(msg, "x")
+		}
+	case 4:
+		if global {
+			zlog.Logger.Write([]byte(msg + "\n"))
+		} else {
+			lg.Write([]byte(msg))
+		}
+	case 5:
+		if global {
+			zlog.Err(errors.New("err " + c.id)).Msg(msg)
+		} else {
+			lg.Err(errors.New("err " + c.id)).Msg(msg)
+		}
+	case 6:
+		if global {
+			zlog.Err(nil).Msg(msg)
+		} else {
+			lg.Err(nil).Msg(msg)
+		}
+	case 7:
+		if global {
+			zlog.Info().Str("id", c.id).Msg(msg)
+		} else {
+			lg.Info().Str("id", c.id).Msg(msg)
+		}
+	case 8:
+		if global {
+			zlog.Warn().Str("id", c.id).Msg(msg)
+			zsim.Probe("package_level_helpers")
+		} else {
+			lg.Trace().Str("id", c.id).Msg(msg)
+		}
+	case 9:
+		if global {
+			zlog.Error().Str("id", c.id).Msg(msg)
+		} else {
+			lg.Debug().Str("id", c.id).Msg(msg)
+		}
+	}
 }
 
 func (c06World) Run(prop string, ch *zsim.Choices, trace bool) *RunResult {
@@ -336,7 +419,7 @@ func (c06World) Run(prop string, ch *zsim.Choices, trace bool) *RunResult {
 		zerolog.ErrorStackMarshaler = func(err error) interface{} { return "STACK" }
 		r.sinks[0] = &c6Sink{r: r, idx: 0}
 		r.sinks[1] = &c6Sink{r: r, idx: 1}
-		r.dest = ch.Weighted(4, 3, 2, 2, 1, 1, 1, 2, 2, 1, 1)
+		r.dest = ch.Weighted(4, 3, 2, 2, 1, 1, 1, 2, 2, 1, 1, 1, 1)
 		r.sinkBeh = ch.Weighted(4, 2, 2)
 		// logger derivations are drawn once and built twice: one set of loggers and
 		// destination wrappers for the reference (solo) runs, a fresh identical set
@@ -355,7 +438,7 @@ func (c06World) Run(prop string, ch *zsim.Choices, trace bool) *RunResult {
 		}
 		nl := ch.Intn(4)
 		for i := 0; i < nl; i++ {
-			sp := lspec{parent: ch.Intn(nLog), kind: ch.Intn(9), name: fmt.Sprintf("h%d", i)}
+			sp := lspec{parent: ch.Intn(nLog), kind: ch.Intn(11), name: fmt.Sprintf("h%d", i)}
 			if sp.kind == 8 {
 				sp.n = uint32(2 + ch.Intn(3))
 			}
@@ -381,6 +464,18 @@ func (c06World) Run(prop string, ch *zsim.Choices, trace bool) *RunResult {
 				parent := r.loggers[sp.parent]
 				r.samplerOf = append(r.samplerOf, r.samplerOf[sp.parent])
 				switch sp.kind {
+				case 9:
+					name := sp.name
+					r.loggers = append(r.loggers, parent.Hook(zerolog.HookFunc(func(e *zerolog.Event, l zerolog.Level, m string) {
+						zsim.Yield("HookFunc")
+						e.Str("hookfunc", name)
+					})))
+				case 10:
+					lh := zerolog.NewLevelHook()
+					lh.InfoHook = c6Hook{sp.name + "i"}
+					lh.ErrorHook = c6Hook{sp.name + "e"}
+					lh.NoLevelHook = c6Hook{sp.name + "n"}
+					r.loggers = append(r.loggers, parent.Hook(lh))
 				case 7:
 					// three separate Hook calls leave the hooks slice with spare capacity
 					r.loggers = append(r.loggers, parent.Hook(c6Hook{sp.name + "a"}).Hook(c6Hook{sp.name + "b"}).Hook(c6Hook{sp.name + "c"}))
@@ -415,7 +510,7 @@ func (c06World) Run(prop string, ch *zsim.Choices, trace bool) *RunResult {
 		r.flips = ch.Chance(1, 5)
 		withErrors := ch.Chance(1, 6)
 		nsinks := 1
-		if r.dest == 2 || r.dest == 4 {
+		if r.dest == 2 || r.dest == 4 || r.dest == 12 {
 			nsinks = 2
 		}
 		for t := 0; t < r.nTasks; t++ {
@@ -436,6 +531,13 @@ func (c06World) Run(prop string, ch *zsim.Choices, trace bool) *RunResult {
 				c.level = c6Levels[ch.Intn(len(c6Levels))]
 				c.ops = genOps(ch, ch.Intn(7), 0, "f")
 				c.fin = ch.Intn(4)
+				if ch.Chance(1, 5) {
+					c.entry = 1 + ch.Intn(9)
+					c.level = zerolog.ErrorLevel // never optional through level flips: decided by the entry point itself
+					if r.flips {
+						c.entry = 0
+					}
+				}
 				if withErrors && ch.Chance(1, 4) {
 					c.failOn = ch.Intn(nsinks)
 				}
@@ -472,7 +574,7 @@ func (c06World) Run(prop string, ch *zsim.Choices, trace bool) *RunResult {
 			tasks = append(tasks, zsim.Spawn(fmt.Sprintf("log%d", t), func() {
 				seq := 0
 				for i := 0; i < len(cs); i++ {
-					if pairs && i+1 < len(cs) {
+					if pairs && i+1 < len(cs) && cs[i].entry == 0 && cs[i+1].entry == 0 {
 						// two events open at once, finalized in either order
 						a, b := cs[i], cs[i+1]
 						ea := r.start(a).Str("id", a.id)
